@@ -117,7 +117,7 @@ func errClass(err error) string {
 // which error classes may a cause report?
 var causeClasses = map[string][]string{
 	"close": {"nil"}, "close2": {"nil"}, "e1": {"E1"}, "e2": {"E2"}, "fin": {"EOF"}, "data+fin": {"EOF"},
-	"rst+write": {"EOF", "ioerr"}, "backlog+rst": {"EOF", "ioerr"}, "rst+sendfile": {"EOF", "ioerr"}, "overflow": {"overflow"}, "rdeadline": {"rtimeout"}, "wdeadline": {"wtimeout"}, "stop": {"nil"},
+	"rst+write": {"EOF", "ioerr"}, "rst+writev": {"EOF", "ioerr"}, "overflow-writev": {"overflow"}, "backlog+rst": {"EOF", "ioerr"}, "rst+sendfile": {"EOF", "ioerr"}, "overflow": {"overflow"}, "rdeadline": {"rtimeout"}, "wdeadline": {"wtimeout"}, "stop": {"nil"},
 }
 
 func body(c cfg) func() {
@@ -128,7 +128,7 @@ func body(c cfg) func() {
 		c.mode.Apply(&conf)
 		hasOverflow := false
 		for _, cs := range c.causes {
-			if cs == "overflow" {
+			if cs == "overflow" || cs == "overflow-writev" {
 				hasOverflow = true
 			}
 		}
@@ -269,6 +269,14 @@ func body(c cfg) func() {
 						peer.Reset()
 						_, _ = conn.Write([]byte{9})
 					}
+				case "rst+writev":
+					// the vectored call is the operation that meets the broken connection
+					if peer != nil {
+						peer.Reset()
+						_, _ = conn.Writev([][]byte{{9}, {8, 7}})
+					}
+				case "overflow-writev":
+					_, _ = conn.Writev([][]byte{make([]byte, 3+2), make([]byte, 3)})
 				case "backlog+rst":
 					// the poller's flush (not a Write) hits the broken connection
 					if peer != nil {
@@ -545,17 +553,17 @@ func build(tier string) []*vkit.Scenario {
 			Counters: func() map[string]int { return lastCounters }, Outcome: func() string { return lastOutcome },
 			NonTrivial: func(m map[string]int) bool { return m["closed"] > 0 || m["callbacks"] > 0 }})
 	}
-	singles := []string{"close", "e1", "fin", "rst+write", "backlog+rst", "rst+sendfile", "overflow", "rdeadline", "wdeadline", "stop"}
+	singles := []string{"close", "e1", "fin", "rst+write", "rst+writev", "overflow-writev", "backlog+rst", "rst+sendfile", "overflow", "rdeadline", "wdeadline", "stop"}
 	pairs := [][]string{
 		{"close", "close2"}, {"close", "e1"}, {"e1", "e2"}, {"close", "fin"}, {"e1", "rst+write"}, {"close", "overflow"},
 		{"e1", "rdeadline"}, {"close", "stop"}, {"fin", "stop"}, {"fin", "rst+write"}, {"overflow", "fin"}, {"e1", "wdeadline"},
-		{"rdeadline", "wdeadline"}, {"stop", "overflow"}, {"close", "backlog+rst"}, {"e1", "rst+sendfile"},
+		{"rdeadline", "wdeadline"}, {"stop", "overflow"}, {"close", "backlog+rst"}, {"e1", "rst+sendfile"}, {"close", "rst+writev"}, {"e1", "overflow-writev"},
 	}
 	triples := [][]string{{"close", "e1", "fin"}, {"close", "close2", "stop"}, {"e1", "e2", "rst+write"}, {"close", "overflow", "rdeadline"}}
 	for _, m := range ekit.Modes {
 		for _, o := range []string{"add", "accept", "udp"} {
 			for _, s := range singles {
-				if o == "udp" && (s == "fin" || strings.Contains(s, "rst") || s == "overflow") {
+				if o == "udp" && (s == "fin" || strings.Contains(s, "rst") || strings.HasPrefix(s, "overflow")) {
 					continue
 				}
 				c := cfg{mode: m, origin: o, causes: []string{s}, p: 2}
